@@ -119,7 +119,7 @@ def fxrealtest(workdir):
     return dt
 
 
-def validate_shards(module, shard_paths, workdir, env_extra=None, cfg=None):
+def validate_shards(module, shard_paths, workdir, env_extra=None, cfg=None, drift=None):
     """One single-worker TLC per shard, in parallel.  Returns (fails, stats) where fails is a list of
     dicts {shard, id, prop, verdict} exactly as TLC printed them."""
     fails, tot_events, states, trans = [], 0, 0, 0
@@ -142,6 +142,9 @@ def validate_shards(module, shard_paths, workdir, env_extra=None, cfg=None):
             g, d = parse_states(out)
             states += d
             trans += g
+            if drift is not None:
+                for m in re.finditer(r'^"DRIFT (.*)"$', out, re.M):
+                    drift.append(m.group(1).encode().decode("unicode_escape"))
             for m in re.finditer(r'^"FAIL (.*)"$', out, re.M):
                 raw = m.group(1).encode().decode("unicode_escape")
                 ident, prop, verdict = json.loads(raw)
